@@ -16,6 +16,11 @@ func deepHandle(raw []byte) map[string]interface{} {
 	if err := json.Unmarshal(raw, &pc); err != nil {
 		return map[string]interface{}{"error": err.Error()}
 	}
+	if pc.MaxStr > 0 {
+		old := tengo.MaxStringLen
+		tengo.MaxStringLen = pc.MaxStr
+		defer func() { tengo.MaxStringLen = old }()
+	}
 	c, bad := compileForDump(&pc)
 	if bad != nil {
 		return map[string]interface{}{"outcome": bad}
@@ -84,7 +89,7 @@ func deepHandle(raw []byte) map[string]interface{} {
 	sort.Slice(fns, func(i, j int) bool { return fns[i]["entries"].(int) > fns[j]["entries"].(int) })
 	res["fns"] = fns
 	if err != nil {
-		res["outcome"] = V{"k": "runtime_error", "kind": classifyRuntime(err), "msg": err.Error()}
+		res["outcome"] = V{"k": "runtime_error", "kind": classifyRuntime(err), "msg": err.Error(), "sentinels": sentinels(err)}
 		if len(err.Error()) > 400 {
 			res["outcome"].(V)["msg"] = err.Error()[:400]
 		}
